@@ -543,6 +543,61 @@ static bool opGet(HxLine& l)
   return true;
 }
 
+// Finding "self-append": a Variant reached through a mutable accessor of v is given v itself.
+// Runs on a local Variant; prints the sizes along the chain v, v.back(), v.back().back(), ...
+// (value semantics: the appended copy is the *old* value).  The cycle the real code creates is
+// cut afterwards so that the probe itself does not leak.
+static usize lastSize(const Variant& x, const Variant*& last)
+{
+  last = 0;
+  switch(x.getType())
+  {
+  case Variant::listType: if(!x.toList().isEmpty()) last = &x.toList().back(); return x.toList().size();
+  case Variant::arrayType: if(!x.toArray().isEmpty()) last = &x.toArray().back(); return x.toArray().size();
+  case Variant::mapType:
+    if(!x.toMap().isEmpty())
+    {
+      // (HashMap::back() const is declared `const T&` but returns the value: it does not compile for T != V)
+      HashMap<String, Variant>::Iterator it = x.toMap().end();
+      --it;
+      last = &*it;
+    }
+    return x.toMap().size();
+  default: return 0;
+  }
+}
+
+static bool opSelfApp(const HxLine& l)
+{
+  if(l.ntok != 2 || strlen(l.tok[1]) != 1) return false;
+  char k = l.tok[1][0];
+  Variant v;
+  int cut;          // depth of the element that holds the copy of v
+  switch(k)
+  {
+  case 'l': v.toList(); v.toList().append(v); cut = 1; break;
+  case 'a': v.toArray(); v.toArray().append(v); cut = 1; break;
+  case 'm': v.toMap(); v.toMap().append(String("k"), v); cut = 1; break;
+  case 'n': v.toList().append(Variant(List<Variant>())); v.toList().back().toList().append(v); cut = 2; break;
+  case 'e': v.toList().append(Variant(1)); v.toList().back() = v; cut = 1; break;
+  default: return false;
+  }
+  printf("selfapp %c", k);
+  const Variant* x = &v;
+  const Variant* handle = 0;
+  for(int depth = 0; depth < 5; ++depth)
+  {
+    const Variant* next = 0;
+    usize n = x ? lastSize(*x, next) : 0;
+    printf(" %lu", (unsigned long)n);
+    if(depth + 1 == cut) handle = next;
+    x = next;
+  }
+  hxEndLine();
+  if(handle) const_cast<Variant*>(handle)->clear();
+  return true;
+}
+
 int main()
 {
   static HxLine l;
@@ -569,6 +624,11 @@ int main()
     {
       ok = varIndex(l, 1, v) && varIndex(l, 2, w);
       if(ok) var[v]->swap(*var[w]);
+    }
+    else if(strcmp(l.tok[0], "selfapp") == 0)
+    {
+      if(!opSelfApp(l)) bad();
+      continue;
     }
     else ok = false;
     if(ok) observe(); else bad();
